@@ -541,6 +541,15 @@ func (z *Z) tabify(l ln) string {
 			for j < l.sc && j < len(l.s) && l.s[j] == ' ' {
 				j++
 			}
+			if j-i > 1 && coin(z.s, 1, 3) {
+				// keep the first spaces of the run and write only its tail with tabs ("> " TAB "- a": the tab is
+				// worth the two columns from 2 to 4)
+				k := 1 + z.s.Intn(j-i-1)
+				sb.WriteString(sp(k))
+				col += k
+				i += k
+				z.note("tab-after-spaces")
+			}
 			end := col + (j - i)
 			for {
 				stop := col - col%4 + 4
